@@ -36,6 +36,10 @@ type world struct {
 	snap   snapshot
 	// lastLoose: the file the last judge() accepted under permit.looseUnder ("" = none)
 	lastLoose string
+	// environment dimension (env_test.go): links planted in the loot tree (logical -> physical), the
+	// working directory the teamserver's relative paths refer to
+	links []planted
+	cwd   string
 }
 
 // scratchParent prefers a memory-backed directory (the check creates and lists a few
